@@ -167,6 +167,7 @@ func checkC15(cx *Ctx, r *Report) {
 	cx.checkContextKeys(r)
 	// storage is asked with the request's context (which carries the issuer in effect)
 	cx.checkStorageContext(r)
+	cx.checkStorageIsTheApplications(r)
 	r.Clauses = []string{
 		"R-EFFECT: every store (field, element, map update, captured variable) in code that runs per request targets an object allocated during that request (or a decode target / the setter object handed to storage); no store targets the provider objects (handler receivers and what they load), router-time captures, package variables or storage-owned objects, and no mutating call is made on a shared sync.Map / sync.Pool-backed object whose contents outlive the request",
 		"no goroutine is started and no channel is used by per-request code; package-level variables read by per-request code are immutable values (basic, error, func) or objects documented safe for concurrent use (regexp, html/template)",
